@@ -482,7 +482,7 @@ func (e *c26Env) mergeAndCheck(w *c26World, cfg bs.BloomSearchEngineConfig, scen
 			var srcs []srcRef
 			seen := map[srcRef]bool{}
 			for _, rb := range ob.rowBytes {
-				r := w.rows[rowID(rb)]
+				r := w.rows[slRowID(rb)]
 				if r == nil || !bytes.Equal(r.bytes, rb) {
 					c.mismatch("c26-merge-rows", fmt.Sprintf("%s: merged file %s block %d holds a row that was never ingested", scen, ptr, bi), nil)
 					ok = false
